@@ -92,7 +92,9 @@ def gen_history(rng, nops):
             if kind in ("imm1", "imm2") and rng.random() < 0.3:
                 # allocate_buckets for another share number: the lease goes onto every share already held; on a server
                 # without spare space (avail 0 / 50) no writer is created but known secrets are still renewed
-                ops += [["order"], ["alloc", now, rng.choice([0, 50, 10 ** 12]), rng.choice([7, 8]), rng.choice([5, 60]), p[0], p[1]]]
+                na = rng.choice([7, 8])
+                # (closed at once: an upload left open is aborted by BucketWriter's 30-minute timeout when the clock moves on)
+                ops += [["order"], ["alloc", now, rng.choice([0, 50, 10 ** 12]), na, rng.choice([5, 60]), p[0], p[1]], ["bclose", na]]
             else:
                 ops += [["order"], ["addlease", now, rng.choice([10 ** 12, 10 ** 12, 10 ** 12, 80, 0, 0]), p[0], p[1]]]
         elif r < 0.65:
